@@ -152,6 +152,7 @@ class Profile:
         self.aliases = 0.3
         self.infer = 0.15
         self.pos_alias = 0.0      # positionals carrying (meaningless) long aliases
+        self.group_nesting = 0.0  # groups naming other groups (or themselves) as members: rejected by the validity gate
         self.conventional = False
         self.__dict__.update(kw)
 
@@ -345,6 +346,14 @@ def gen_cmd(rng, prof, depth=0, path="p", used_env=None, inherited=None):
             if chance(rng, 0.2):
                 g["requires"] = [pick(rng, own_ids)]
             c["groups"].append(g)
+        if prof.group_nesting and len(c["groups"]) >= 1 and chance(rng, prof.group_nesting):
+            gs = c["groups"]
+            a_, b_ = pick(rng, gs), pick(rng, gs)
+            a_["args"] = list(a_["args"]) + [b_["id"]]
+            if chance(rng, 0.6) and b_ is not a_:
+                b_["args"] = list(b_["args"]) + [a_["id"]]
+            if chance(rng, 0.5):
+                a_["required"] = True
     if len(own) >= 2 and chance(rng, 0.15):
         # group declared through Arg::group
         pick(rng, own)["groups"] = [b"ag"]
